@@ -316,8 +316,23 @@ Inductive op :=
 | OFg (f : fop) (pl : plan)
 | OFlush (ord : list key) (inter : list (key * list fop)) (pl : plan)   (* Flush / one periodic sync *)
 | OStop (ord : list key) (pl : plan)
+| OGStop (ords : list (list key)) (pl : plan)   (* graceful stop by the limiter: stopLimitStoreWithRetry, one flush order per attempt *)
 | OLoad (o : outcome)
 | ORestart (sh : Z) (w : bool).      (* the store is discarded (crash or hand-over); a new one is built over the same API *)
+
+(* limiter.stopLimitStoreWithRetry: up to 10 attempts of Stop(), the next one only after a failed one *)
+Fixpoint gstop_go (fuel : nat) (n : Z) (lk : locks) (sh : Z) (w : bool) (ords : list (list key)) (x : world)
+  : world * res :=
+  match fuel with
+  | O => (x, RErr)
+  | S f =>
+      let '(x1, _, r) := do_flush n lk sh w (hd [] ords) [] x in
+      match r with
+      | ROk => (x1, ROk)
+      | RCrash => (x1, RCrash)
+      | _ => gstop_go f n lk sh w (tl ords) x1
+      end
+  end.
 
 Definition fresh (sh : Z) (w : bool) : store := mkStore sh w false false [].
 
@@ -343,6 +358,10 @@ Definition step (n : Z) (lk : locks) (s : st) (o : op) : st * (res * list res) :
         if stopped (sto s) then (s, (ROk, [])) else
         let '(x, rs, r) := do_flush n lk sh w ord [] (mkW (api s) (loc (sto s)) pl) in
         (finish s x r (if res_eqb r ROk then true else false), (r, rs))
+    | OGStop ords pl =>
+        if stopped (sto s) then (s, (ROk, [])) else
+        let '(x, r) := gstop_go 10 n lk sh w ords (mkW (api s) (loc (sto s)) pl) in
+        (finish s x r (if res_eqb r ROk then true else false), (r, []))
     | OLoad o =>
         let '(x, r) := do_load n sh o (mkW (api s) (loc (sto s)) []) in
         (finish s x r (stopped (sto s)), (r, []))
